@@ -66,7 +66,7 @@ PROPS = {
         module="OrbitModel.Properties.C04",
         theorems=["Orbit.C04.only_verified_same_database_entries_merged", "Orbit.C04.held_entries_unaffected",
                   "Orbit.C04.batch_merges_only_verified", "Orbit.C04.misaddressed_head_refused",
-                  "Orbit.C04.listed_entries_are_members", "Orbit.C04.pinned_foreign_entry_becomes_head", "Orbit.C04.load_hands_only_own_entries_to_join", "Orbit.C04.foreign_entry_came_back_through_load_before_the_fix"],
+                  "Orbit.C04.listed_entries_are_members", "Orbit.C04.pinned_foreign_entry_becomes_head", "Orbit.C04.load_hands_only_own_entries_to_join", "Orbit.C04.foreign_entry_came_back_through_load_before_the_fix", "Orbit.C04.fetched_entries_sit_at_the_address_of_their_content", "Orbit.C04.twin_of_a_genuine_entry_was_merged_before_the_fix"],
         families=[("forge", 150, 4000, 10), ("multidb", 25, 400, 8)],
         corr_fields={"values", "heads", "idx", "len", "sync", "loadq", "rev"},
         nontrivial=lambda lines: sum(1 for l in lines if l.startswith("forged ") and " err" not in l) >= 1 and sum(1 for l in lines if l.startswith("op inject")) >= 1,
@@ -333,7 +333,7 @@ MANIFEST_TEXT = {
         note="Trusted: Lean kernel + standard axioms; unforgeability of secp256k1 signatures and 'identity block genuine' are represented by measured flags; the hand-written model of Join/CanAppend/Sync validated by correspondence; the replicator's log-id filter is a hypothesis of the reachability relation (its code is exercised by the harness).",
         technique="Lean 4 proof (membership invariant over adversarial reachability) with differential correspondence on forged entries"),
     "C04": dict(
-        text="Kernel-checked theorems: whatever log is handed to Join, everything it adds passed the access check, verifies and carries this database's id, and nothing held is lost; the same for a whole batch with rejected logs; a wrongly addressed head aborts Sync; every listed entry is a member. The dependency's Join still merges foreign heads (decide-checked witness); the fix: commit in the replicator keeps such entries away from Join, and the harness checks on the real code that no tampered / foreign entry is ever listed and that Len() matches the listing. The reload route (Load after a restart) hands only this log's entries to Join (proved; before the fix: commit F27 an entry of another log named in a writer's refs came back as a head: decide-checked witness, replayed on the real store).",
+        text="Kernel-checked theorems: whatever log is handed to Join, everything it adds passed the access check, verifies and carries this database's id, and nothing held is lost; the same for a whole batch with rejected logs; a wrongly addressed head aborts Sync; every listed entry is a member. The dependency's Join still merges foreign heads (decide-checked witness); the fix: commit in the replicator keeps such entries away from Join, and the harness checks on the real code that no tampered / foreign entry is ever listed and that Len() matches the listing. The reload route (Load after a restart) hands only this log's entries to Join (proved; before the fix: commit F27 an entry of another log named in a writer's refs came back as a head: decide-checked witness, replayed on the real store). What the reload and snapshot routes hand to Join sits at the address of its content (proved; finding F46, fix: commit - a genuine entry written again with other bytes was merged a second time under the new address by the replicator, Load and LoadFromSnapshot: decide-checked witness; `reencode` recipe behind a colluding writer's entry, live, after a restart and through a snapshot).",
         note="Trusted: Lean kernel + standard axioms; content addressing (HashDet); the mapping from wire-form mutations to the model's flags is measured by the harness with the real Verify / re-encode.",
         technique="Lean 4 proof (Join adds only acceptable entries; monotonicity) with differential correspondence on tampered entries"),
     "C05": dict(
